@@ -167,6 +167,12 @@ def split_uri(uri):
     return uri, "/"
 
 
+def decoy_table(table):
+    """Another valid bin table with the same chromosomes and bin count: every coordinate times 3 (a reader that takes the
+    bin table from the decoy collection reports other coordinates)."""
+    return [[c, 3 * s, 3 * e] for c, s, e in table]
+
+
 def decoy_px(px):
     """Different content on the same bins: every value + 1 (a reader that loses the group path returns THIS)."""
     return [[p[0], p[1]] + [v + 1 for v in p[2:]] for p in px]
@@ -204,7 +210,7 @@ def place(path, table, px, mode="symm", at=None, cols=("count",), names=None, pr
             read_everything(path)
         make_cooler(path, table, px, mode, cols, names, **kw)
         return path
-    make_cooler(path, table, decoy_px(px), mode, cols, names, **kw)
+    make_cooler(path, decoy_table(table), decoy_px(px), mode, cols, names, **kw)
     uri = path + "::" + at
     if prior:
         make_cooler(uri, table, prior_px(px), mode, cols, names, mode_="a", **kw)
